@@ -160,6 +160,25 @@ fn run_hist(args: &Args, oracle: Oracle, mix: Mix) -> (Report, String, bool) {
             );
             hist::run_case(&c, oracle, &mut rep);
         }
+        // T6: exhaustive occurrence patterns (absent / once / twice per child and occurrence)
+        {
+            let specs: &[(usize, &[&str])] = if thorough {
+                &[(2, &["a", "b", "c"]), (3, &["a", "b", "c"]), (4, &["a", "b", "c"]), (5, &["a", "b"]), (6, &["a"])]
+            } else {
+                &[(2, &["a", "b", "c"]), (3, &["a", "b", "c"]), (4, &["a", "b"]), (5, &["a"])]
+            };
+            for (k, names) in specs {
+                let total = hist::pattern_count(*k, names.len());
+                let mut i = shard as u64;
+                while i < total {
+                    for c in hist::pattern_cases(i, *k, names) {
+                        hist::run_case(&c, oracle, &mut rep);
+                        rep.count("exhaustive_occurrence_patterns");
+                    }
+                    i += SHARDS as u64;
+                }
+            }
+        }
         // threshold families (deterministic): counts, widths, depths and text lengths around powers of two
         for (i, c) in thresholds.iter().enumerate() {
             if i % SHARDS == shard {
@@ -177,7 +196,7 @@ fn run_hist(args: &Args, oracle: Oracle, mix: Mix) -> (Report, String, bool) {
         rep
     });
     let rule = format!(
-        "histories parse(D1),extend(D2..Dk) through the real parser: (1) exhaustive — every document over names {{a,b}} under root r with <= {} elements below the root, depth <= 2, attribute k on or off ({} documents; all singles and all {} ordered pairs) and every ordered pair of the {} documents with <= 2 elements and text on/off; (2) sampled triples of those; (3) {} seeded random histories (profiles tiny/general/many-docs/adversarial names/wide/deep/long-list, 1-16 documents, random surface syntax and reader kinds); (4) deterministic threshold families: N occurrences of a parent (254..513, 65535..65537), N same-named children in one occurrence (255..1024, 65536, 131072), M distinct child or attribute names (63..300) with late repeats / late absences, chains of depth 7..300 (same name, distinct names, alternating, two branches, deep part arriving with the third document), text/CDATA nodes with a multi-byte character straddling offsets 64..4096. Non-trivial: the reference schema has more than one position or an attribute; distinct: hash of (canonical reference schema, rendered bytes).",
+        "histories parse(D1),extend(D2..Dk) through the real parser: (1) exhaustive — every document over names {{a,b}} under root r with <= {} elements below the root, depth <= 2, attribute k on or off ({} documents; all singles and all {} ordered pairs) and every ordered pair of the {} documents with <= 2 elements and text on/off; (2) sampled triples of those; (3) {} seeded random histories (profiles tiny/general/many-docs/adversarial names/wide/deep/long-list, 1-16 documents, random surface syntax and reader kinds); (4) exhaustive occurrence patterns: every assignment of absent/once/twice to each child over k occurrences of one parent (k=2,3 over three children, k=4 over two, k=5 over one; thorough: k=4 over three, k=5 over two, k=6 over one), each supplied inside one document, one occurrence per document, and under two occurrences of a grandparent; (5) deterministic threshold families: N occurrences of a parent (254..513, 65535..65537), N same-named children in one occurrence (255..1024, 65536, 131072), M distinct child or attribute names (63..300) with late repeats / late absences, chains of depth 7..300 (same name, distinct names, alternating, two branches, deep part arriving with the third document), text/CDATA nodes with a multi-byte character straddling offsets 64..4096. Non-trivial: the reference schema has more than one position or an attribute; distinct: hash of (canonical reference schema, rendered bytes).",
         if thorough { 4 } else { 3 },
         na,
         na * na,
